@@ -7,6 +7,7 @@
 // Grid: 20 column definitions (every scalar type, nested paths, array indexes, CONVERT, DEFAULT, NOT NULL, an array column,
 // a regex column next to JSON columns) x 30 lines (nesting, insignificant whitespace around the document, wrong-typed leaves, numbers beyond i64 / f64, duplicate keys,
 // arrays, empty containers, non-JSON text, truncated JSON).
+// Also: tables with regex and JSON columns where no pattern matches the JSON line.
 include!("verif_grid_common.rs");
 include!("verif_grid_qcommon.rs");
 use serde_json::Value as J;
@@ -103,6 +104,19 @@ fn verif_grid() {
                 }
             });
         }
+    }
+    // regex columns and JSON columns of one table are independent: a JSON line that no pattern matches still fills the JSON columns
+    for (i, (def, line, want)) in [
+        ("CREATE TABLE t(ts = '^\\\\[(\\\\d+)\\\\]', ts[1] => stamp INT, { .a } => a INT, { .s } => s TEXT DEFAULT 'none');", r#"{"a": 5, "s": "x"}"#, r#"{"stamp":null,"a":5,"s":"x"}"#),
+        ("CREATE TABLE t(ts = '^\\\\[(\\\\d+)\\\\]', ts[1] => stamp INT, { .a } => a INT, { .s } => s TEXT DEFAULT 'none');", r#"{"a": 6}"#, r#"{"stamp":null,"a":6,"s":"none"}"#),
+        ("CREATE TABLE t(ts = '^\\\\[(\\\\d+)\\\\]', ts[1] => stamp INT, { .a } => a INT, { .s } => s TEXT DEFAULT 'none');", "[17] not json", r#"{"stamp":17,"a":null,"s":"none"}"#),
+        ("CREATE TABLE t(w = split ' ', w[1] => first TEXT, 'id=(\\\\d+)' => id INT, { .k[0] } => k REAL);", r#"{"k":[2.5]}"#, r#"{"first":"{\"k\":[2.5]}","id":null,"k":2.5}"#),
+    ].iter().enumerate() {
+        g.case(&format!("mixed-table-{}", i), move || match q(def, "SELECT * FROM t", &[line]) {
+            Outcome::Lines(rows, _) => if rows.len() == 1 && num_eq(&serde_json::from_str::<J>(&rows[0]).unwrap(), &serde_json::from_str::<J>(want).unwrap()) { Ok(()) }
+                else { Err(format!("{} on the line {:?} printed {:?}, expected {}", def, line, rows, want)) },
+            other => Err(format!("{:?}", other)),
+        });
     }
     // NOT NULL on a JSON column: the line is a row only if the value is there; columns do not influence each other
     let def = "CREATE TABLE t({ .a } => a INT NOT NULL, { .b } => b TEXT DEFAULT 'd', { .c.d } => cd REAL);";
